@@ -144,6 +144,9 @@ type enResult struct {
 
 const enMaxCallDepth = 1000
 
+// keys of the table XK of the return-value stream (retval.go)
+const enKeyLo, enKeyHi = -20, 60
+
 type enWorld struct {
 	prog    *enProg
 	funcs   map[string]*enFunc
@@ -164,6 +167,8 @@ type enWorld struct {
 	budget  int
 	marks   map[string]int // what happened, for the distribution
 	retVal  enVal
+	retBare bool
+	nested  []int // per activation: 1 = a call made by it came back with the uninitialised value, 2 = with a value
 }
 
 type enBudget struct{}
@@ -400,11 +405,42 @@ func (w *enWorld) eval(e *enE) enVal {
 		}
 		// exit / next / a run-time error leave through a panic caught at the top level, which drops all frames
 		ret := enVal{}
+		w.nested = append(w.nested, 0)
+		left := "fall-off"
 		if w.execList(f.Body, false) == enFlowReturn {
 			ret = w.retVal
+			left = "return-expr"
+			if w.retBare {
+				left = "bare-return"
+			}
+		}
+		// the distribution of the return-value stream: how the activation was left and what the calls it made itself had done
+		mask := w.nested[len(w.nested)-1]
+		w.nested = w.nested[:len(w.nested)-1]
+		after := []string{"no-call", "calls-that-gave-nothing", "a-call-that-returned-a-value", "a-call-that-returned-a-value"}[mask]
+		w.marks["left:"+left+"-after-"+after]++
+		if n := len(w.nested); n > 0 {
+			if ret.set {
+				w.nested[n-1] |= 2
+			} else {
+				w.nested[n-1] |= 1
+			}
 		}
 		w.frames = w.frames[:len(w.frames)-1]
 		return ret
+	case "isnull": // (e == 0 && e == ""), e evaluated once: true for the uninitialised value only
+		return enBool(!w.eval(e.A).set)
+	case "key": // XK[e] with XK[""] = -1 and XK[n] = n + 100 for -20 <= n <= 60; another key reads as uninitialised
+		s := w.eval(e.A).str()
+		if s == "" {
+			return enNum(-1)
+		}
+		if n, err := strconv.Atoi(s); err == nil && strconv.Itoa(n) == s && n >= enKeyLo && n <= enKeyHi {
+			return enNum(n + 100)
+		}
+		return enVal{}
+	case "catlen": // length("<" e ">")
+		return enNum(len(w.eval(e.A).str()) + 2)
 	case "err":
 		w.fail(e.V)
 	case "close":
@@ -564,7 +600,7 @@ func (w *enWorld) exec(s *enS, inLoop bool) int {
 		if len(w.frames) == 0 {
 			panic(enUnsupported("return outside a function"))
 		}
-		w.retVal = v
+		w.retVal, w.retBare = v, s.E == nil
 		return enFlowReturn
 	case "break":
 		return enFlowBreak
